@@ -4,35 +4,14 @@ From Slsk Require Import C12.Model.
 Open Scope nat_scope.
 
 (* ------------------------------------------------------------------ matching *)
-Lemma fields_impl_spec : forall fs g, callable_last fs = true -> fields_impl fs g = fields_spec fs g.
+Lemma fields_impl_spec : forall fs g, fields_impl fs g = fields_spec fs g.
 Proof.
-  induction fs as [|f r IH]; intros g H; [reflexivity|].
-  unfold fields_spec in *. simpl in *. destruct (snd f) eqn:E.
-  - rewrite (IH g H). destruct (field_ok g f); reflexivity.
-  - destruct r; [|discriminate]. simpl. rewrite andb_true_r. reflexivity.
+  induction fs as [|f r IH]; intros g; [reflexivity|].
+  unfold fields_spec in *. simpl. rewrite IH. destruct (field_ok g f); reflexivity.
 Qed.
 
-Lemma matches_spec_partial : forall m g, callable_last (m_fields m) = true -> matches m g = matches_spec m g.
-Proof. intros. unfold matches, matches_spec. rewrite fields_impl_spec by assumption. reflexivity. Qed.
-
-Lemma spec_implies_impl : forall fs g, fields_spec fs g = true -> fields_impl fs g = true.
-Proof.
-  induction fs as [|f r IH]; intros g H; [reflexivity|].
-  unfold fields_spec in *. simpl in *. apply andb_true_iff in H. destruct H as [H1 H2].
-  destruct (snd f); rewrite H1; auto.
-Qed.
-
-Lemma matches_spec_implies_matches : forall m g, matches_spec m g = true -> matches m g = true.
-Proof.
-  unfold matches, matches_spec. intros m g H. apply andb_true_iff in H. destruct H as [H1 H2].
-  rewrite H1, (spec_implies_impl _ _ H2). reflexivity.
-Qed.
-
-Definition wit_matcher : matcher := mkM CServer 0 None [(1, FPred (PGe 2)); (0, FEq (Some 1%Z))].
-Definition wit_msg : msg := mkG CServer None 0 [(0, 2%Z); (1, 3%Z); (2, 0%Z)] 0.
-
-Lemma matches_spec_refuted : exists m g, matches m g = true /\ matches_spec m g = false.
-Proof. exists wit_matcher, wit_msg. split; reflexivity. Qed.
+Lemma matches_is_spec : forall m g, matches m g = matches_spec m g.
+Proof. intros. unfold matches, matches_spec. rewrite fields_impl_spec. reflexivity. Qed.
 
 (* ------------------------------------------------------------------ list plumbing *)
 Lemma run_from_app : forall a b st, run_from st (a ++ b) = run_from (run_from st a) b.
@@ -69,28 +48,16 @@ Definition ev_msg (ev : event) : option msg := match ev with Message g => Some g
 Definition cancels (ev : event) (i : nat) : bool := match ev with Cancel j => Nat.eqb j i | _ => false end.
 
 Lemma deliver_nth : forall g st i e, nth_error st i = Some e ->
-  exists e', nth_error (fst (deliver g st)) i = Some e' /\
+  exists e', nth_error (deliver g st) i = Some e' /\
     (e' = e \/ (e_in e = true /\ matches (e_m e) g = true /\ e_fut e = FPending /\ e' = set_fut e (FResult g))).
 Proof.
-  induction st as [|a r IH]; intros i e H; [destruct i; discriminate|].
-  simpl. destruct (e_in a && matches (e_m a) g) eqn:C.
-  - destruct (is_pending (e_fut a)) eqn:P.
-    + destruct (deliver g r) as [r' b] eqn:D. simpl. destruct i; simpl in *.
-      * inv H. eexists; split; [reflexivity|]. right. apply andb_true_iff in C. destruct C.
-        destruct (e_fut e); try discriminate. auto.
-      * exact (IH i e H).
-    + simpl. exists e. auto.
-  - destruct (deliver g r) as [r' b] eqn:D. simpl. destruct i; simpl in *.
-    + inv H. eexists; eauto.
-    + exact (IH i e H).
+  intros g st i e H. unfold deliver. rewrite nth_error_map, H. simpl. eexists; split; [reflexivity|].
+  unfold complete. destruct (e_in e) eqn:I; simpl; auto. destruct (e_fut e) eqn:F; simpl; auto.
+  destruct (matches (e_m e) g) eqn:M; auto 10.
 Qed.
 
-Lemma deliver_length : forall g st, length (fst (deliver g st)) = length st.
-Proof.
-  induction st as [|a r IH]; simpl; auto.
-  destruct (e_in a && matches (e_m a) g); [destruct (is_pending (e_fut a))|];
-    try (destruct (deliver g r); simpl in *; congruence); reflexivity.
-Qed.
+Lemma deliver_length : forall g st, length (deliver g st) = length st.
+Proof. intros. apply map_length. Qed.
 
 Lemma step_length_ge : forall st ev, length st <= length (fst (step st ev)).
 Proof.
@@ -261,39 +228,18 @@ Proof.
 Qed.
 
 (* ------------------------------------------------------------------ the completion loop *)
-Lemma deliver_ok : forall g st, snd (deliver g st) = false -> forall i e, nth_error st i = Some e ->
-  e_in e = true -> matches (e_m e) g = true ->
-  e_fut e = FPending /\ nth_error (fst (deliver g st)) i = Some (set_fut e (FResult g)).
+Lemma deliver_ok : forall g st i e, nth_error st i = Some e ->
+  e_in e = true -> e_fut e = FPending -> matches (e_m e) g = true ->
+  nth_error (deliver g st) i = Some (set_fut e (FResult g)).
 Proof.
-  induction st as [|a r IH]; intros B i e H I M; [destruct i; discriminate|].
-  simpl in *. destruct (e_in a && matches (e_m a) g) eqn:C.
-  - destruct (is_pending (e_fut a)) eqn:P; [|discriminate].
-    destruct (deliver g r) as [r' b] eqn:D. simpl in *. destruct i; simpl in *.
-    + inv H. split; auto. destruct (e_fut e); try discriminate; auto.
-    + apply IH; auto.
-  - destruct (deliver g r) as [r' b] eqn:D. simpl in *. destruct i; simpl in *.
-    + inv H. rewrite I, M in C. discriminate.
-    + apply IH; auto.
+  intros g st i e H I P M. unfold deliver. rewrite nth_error_map, H. simpl. unfold complete. rewrite I, P, M. reflexivity.
 Qed.
 
-Lemma deliver_raise : forall g st, snd (deliver g st) = true ->
-  exists i e, nth_error st i = Some e /\ e_in e = true /\ matches (e_m e) g = true /\ is_pending (e_fut e) = false.
-Proof.
-  induction st as [|a r IH]; intros B; [discriminate|].
-  simpl in *. destruct (e_in a && matches (e_m a) g) eqn:C.
-  - destruct (is_pending (e_fut a)) eqn:P.
-    + destruct (deliver g r) as [r' b] eqn:D. simpl in *. destruct (IH B) as (i & e & H). exists (S i), e. exact H.
-    + apply andb_true_iff in C. exists 0, a. simpl. intuition.
-  - destruct (deliver g r) as [r' b] eqn:D. simpl in *. destruct (IH B) as (i & e & H). exists (S i), e. exact H.
-Qed.
+Lemma never_raises : forall st ev, snd (step st ev) = false.
+Proof. intros st ev. destruct ev; reflexivity. Qed.
 
-Lemma clean_no_raise : forall g st, clean st = true -> snd (deliver g st) = false.
-Proof.
-  intros g st C. destruct (snd (deliver g st)) eqn:B; auto.
-  destruct (deliver_raise g st B) as (i & e & H & I & M & P).
-  unfold clean in C. rewrite forallb_forall in C. specialize (C e (nth_error_In _ _ H)).
-  rewrite I, P in C. discriminate.
-Qed.
+Lemma raises_all_false : forall es st, Forall (fun b => b = false) (raises_from st es).
+Proof. induction es; intros; simpl; constructor; auto using never_raises. Qed.
 
 Lemma donecb_clean : forall e, wf e -> negb (e_in (ev_donecb e)) || is_pending (e_fut (ev_donecb e)) = true.
 Proof. unfold wf. intros e. cases_entry e; cbv; intros; try discriminate; auto. Qed.
@@ -308,16 +254,12 @@ Qed.
 Lemma no_residue : forall es, clean (run (es ++ [RunCallbacks])) = true.
 Proof. intros. rewrite run_snoc. simpl. apply runcallbacks_clean, run_all_wf. Qed.
 
-Lemma no_residue_no_raise : forall es g, snd (step (run (es ++ [RunCallbacks])) (Message g)) = false.
-Proof. intros. simpl. apply clean_no_raise, no_residue. Qed.
-
-Lemma all_completed_partial : forall es g i e, nth_error (run es) i = Some e ->
+Lemma all_completed : forall es g i e, nth_error (run es) i = Some e ->
   e_in e = true -> e_fut e = FPending -> matches (e_m e) g = true ->
-  snd (step (run es) (Message g)) = false ->
   exists e', nth_error (run (es ++ [Message g])) i = Some e' /\ e_fut e' = FResult g.
 Proof.
-  intros es g i e H I P M B. rewrite run_snoc. simpl in *.
-  destruct (deliver_ok g _ B i e H I M) as (_ & N). eexists; split; eauto.
+  intros es g i e H I P M. rewrite run_snoc. simpl.
+  rewrite (deliver_ok g _ i e H I P M). eexists; split; eauto.
 Qed.
 
 (* nothing else is touched by a message *)
@@ -329,39 +271,32 @@ Proof.
   destruct (deliver_nth g _ i e H) as (e2 & N & D). rewrite H' in N. inv N. intuition.
 Qed.
 
-(* first match: every earlier message that matched the (then pending) waiter was one whose delivery raised *)
-Lemma first_match_partial : forall es i e g, nth_error (run es) i = Some e -> e_fut e = FResult g ->
+(* first match: no message delivered between the registration and the completing message matched the waiter *)
+Lemma first_match : forall es i e g, nth_error (run es) i = Some e -> e_fut e = FResult g ->
   exists es1 es2 e1, es = es1 ++ Message g :: es2 /\ nth_error (run es1) i = Some e1 /\
     e_fut e1 = FPending /\ e_in e1 = true /\ matches (e_m e1) g = true /\
-    (forall a g' b e0, es1 = a ++ Message g' :: b -> nth_error (run a) i = Some e0 -> matches (e_m e0) g' = true ->
-       snd (step (run a) (Message g')) = true).
+    (forall a g' b e0, es1 = a ++ Message g' :: b -> nth_error (run a) i = Some e0 -> matches (e_m e0) g' = false).
 Proof.
   intros es i e g H F. destruct (result_provenance es i e g H F) as (es1 & es2 & e1 & E & N1 & P1 & I1 & M1 & _).
   exists es1, es2, e1. repeat split; auto.
-  intros a g' b e0 Ea N0 M0. destruct (snd (step (run a) (Message g'))) eqn:B; auto. exfalso.
-  (* e0 is pending and listed in run a, because it still is in run es1 *)
+  intros a g' b e0 Ea N0. destruct (matches (e_m e0) g') eqn:M0; auto. exfalso.
   assert (Ea' : es1 = (a ++ [Message g']) ++ b) by (rewrite <- app_assoc; exact Ea).
   destruct (exact_once_partial a ([Message g'] ++ b) i e0 N0) as (e1' & N1' & S1).
   rewrite app_assoc, <- Ea' in N1'. rewrite N1 in N1'. inv N1'.
   destruct S1 as (_ & _ & S3 & _ & S5 & _).
   assert (P0 : e_fut e0 = FPending). { destruct (e_fut e0) eqn:Q; auto; rewrite S3 in P1 by discriminate; discriminate. }
   assert (I0 : e_in e0 = true). { destruct (e_in e0) eqn:Q; auto. rewrite S5 in I1 by reflexivity. discriminate. }
-  destruct (all_completed_partial a g' i e0 N0 I0 P0 M0 B) as (e2 & N2 & F2).
+  destruct (all_completed a g' i e0 N0 I0 P0 M0) as (e2 & N2 & F2).
   destruct (exact_once_partial (a ++ [Message g']) b i e2 N2) as (e3 & N3 & S).
   rewrite <- Ea', N1 in N3. inv N3. destruct S as (_ & _ & S3' & _). rewrite S3' in P1 by (rewrite F2; discriminate).
   rewrite F2 in P1. discriminate.
 Qed.
 
-
 (* ------------------------------------------------------------------ a timeout is a timeout *)
-Definition tmo_outcome (k : kind) : outcome := match k with KWait => OInvalidState | _ => OTimeout end.
+Definition tmo_outcome (k : kind) : outcome := OTimeout.
 
 Definition out_is_tmo (k : kind) (o : option outcome) : bool :=
-  match k, o with
-  | KWait, Some OInvalidState => true
-  | KRaw, Some OTimeout | KExec, Some OTimeout => true
-  | _, _ => false
-  end.
+  match o with Some OTimeout => true | _ => false end.
 
 (* the timeout of the waiter has fired, nobody else cancelled its task: it is about to report, or has reported *)
 Definition tphase (e : entry) : bool :=
@@ -428,8 +363,7 @@ Proof.
   pose proof (run_from_all_wf es' _ W1 i e2 H2) as W2.
   exists (ev_donecb e2). split.
   - rewrite nth_error_map, H2. reflexivity.
-  - rewrite (tphase_reported e2 W2 T2). f_equal. f_equal. rewrite K2.
-    destruct (stable_timeout e (W i e H)) as (_ & K & _). exact K.
+  - rewrite (tphase_reported e2 W2 T2). reflexivity.
 Qed.
 
 (* ------------------------------------------------------------------ RunCallbacks = the DoneCb of every entry, in order *)
@@ -455,30 +389,5 @@ Definition g0 (id : nat) : msg := mkG CServer None 0 [(0, 1%Z); (1, 2%Z); (2, 0%
 Definition m1 : matcher := mkM CServer 0 None [(0, FEq (Some 1%Z)); (1, FEq (Some 2%Z))].
 Definition g1 (id : nat) : msg := mkG CServer None 0 [(0, 1%Z); (1, 3%Z); (2, 0%Z)] id.
 
-(* F02a: the same reply twice in one loop iteration: the second completion is attempted on a completed waiter *)
-Lemma exact_once_refuted : exists es g i e g', nth_error (run es) i = Some e /\ e_fut e = FResult g' /\
-  e_in e = true /\ matches (e_m e) g = true /\ snd (step (run es) (Message g)) = true.
-Proof. exists [Register KWait m0; Message (g0 0)], (g0 1), 0, (set_fut (new_entry KWait m0) (FResult (g0 0))), (g0 0). repeat split. Qed.
-
-(* F02a: a timed-out waiter that is still listed makes the loop skip a pending waiter behind it *)
-Lemma all_completed_refuted : exists es g i e e', nth_error (run es) i = Some e /\ e_in e = true /\ e_fut e = FPending /\
-  matches (e_m e) g = true /\ nth_error (run (es ++ [Message g])) i = Some e' /\ e_fut e' = FPending.
-Proof.
-  exists [Register KWait m0; Register KRaw m0; Timeout 0], (g0 0), 1, (new_entry KRaw m0), (new_entry KRaw m0). repeat split.
-Qed.
-
-(* F02a: ... and that waiter is later completed by a message that is not the first one matching it *)
-Lemma first_match_refuted : exists es i e g es1 g' es2 e1, nth_error (run es) i = Some e /\ e_fut e = FResult g /\
-  es = es1 ++ Message g' :: es2 /\ In (Message g) es2 /\ g' <> g /\
-  nth_error (run es1) i = Some e1 /\ e_fut e1 = FPending /\ e_in e1 = true /\ matches (e_m e1) g' = true.
-Proof.
-  exists [Register KRaw m0; Register KRaw m1; Message (g1 0); Message (g0 1); RunCallbacks; Message (g0 2)], 1,
-    (set_fut (new_entry KRaw m1) (FResult (g0 2))), (g0 2),
-    [Register KRaw m0; Register KRaw m1; Message (g1 0)], (g0 1), [RunCallbacks; Message (g0 2)], (new_entry KRaw m1).
-  repeat split; simpl; auto; try discriminate; try tauto.
-Qed.
-
-(* F02b *)
-Lemma timeout_refuted : exists es i e, nth_error (run es) i = Some e /\ e_kind e = KWait /\ e_tmo e = true /\
-  e_ext e = false /\ e_out e = Some OInvalidState.
-Proof. exists [Register KWait m0; Timeout 0; RunCallbacks], 0. eexists. repeat split. Qed.
+Definition wit_matcher : matcher := mkM CServer 0 None [(1, FPred (PGe 2)); (0, FEq (Some 1%Z))].
+Definition wit_msg : msg := mkG CServer None 0 [(0, 2%Z); (1, 3%Z); (2, 0%Z)] 0.
